@@ -13,9 +13,16 @@ MANIFEST = dict(
          "transition of the state graph is executed on real nodes: real signed transactions mined by the real BlockAssembler after every "
          "step and verified + executed by a second real node through DPoVP.InsertBlock; per block TLC validates every account's balance "
          "against parent balance - gasUsed x gasPrice for the payer - amounts of packaged successful transactions + receipts + the block's "
-         "fees for the income address, the sum over the whole universe, gasUsed <= gasLimit, header gasUsed, and no negative balance.",
+         "fees for the income address, the sum over the whole universe, gasUsed <= gasLimit, header gasUsed, and no negative balance. Around "
+         "a term boundary (interim block, REWARD block, block after it) the model adds DepositsBacked (the deposit pool holds exactly the "
+         "recorded deposits: deferred refunds are paid out of it by the reward block, once) and EndOfBlockIssuesTheReward (the end of a block "
+         "issues LEMO only in a reward block: the reward set through the precompile for the finished term - unset / 0 / 3 / 500 / 300000 LEMO, "
+         "refused settings: not the manager, >= pool, overdue, third setting - divided among the term's nodes, rounded down to 1 LEMO); the "
+         "monitor recomputes every balance of the reward block (fees, reward shares, refunds) and the issued sum from the real log.",
     note="gasUsed and packaging decisions are adopted from the real block (the model cannot predict gas); contract outcomes are fixed by the "
-         "five deployed byte codes. Reward / refund blocks and term changes are not reached (heights 4-5 of the first term). "
+         "five deployed byte codes. Term boundary: term / interim duration shrunk to 5-6 / 1-2 blocks, reward pool total lowered to 600000 LEMO, "
+         "the (empty) snapshot block is part of the setup chain, one reward block per behaviour; the design run also shows that a refund not "
+         "debited from the pool violates DepositsBacked (mutant Mut_RefundNotFromPool). "
          "Known defect carried as deviation Dev_BoxSubGasMinted.",
     technique="TLA+ model checking (Ledger.tla over LedgerOps.tla) + replay of the TLC state graph and simulated behaviours on real nodes "
               "(adapter ledger) + TLC trace validation (TraceLedger.tla, Check = C05)")
@@ -23,4 +30,6 @@ MANIFEST = dict(
 
 def run(ctx):
     ledger_common.run(ctx, "C05", exhaustive=dict(quick="c05_quick", thorough="c05_thorough"),
-                      negatives=[("c05_neg", ["Conservation"])], sim="c05_sim", sim_quick=150, sim_thorough=3000, depth=9)
+                      negatives=[("c05_neg", ["Conservation"]), ("c05_negterm", ["DepositsBacked", "EndOfBlockIssuesTheReward"])],
+                      sim="c05_sim", sim_quick=150, sim_thorough=3000, depth=9,
+                      term=dict(graph=dict(quick="c05_term", thorough="c05_term_thorough"), sim="c05_simterm", sim_quick=64, sim_thorough=800, depth=10))
